@@ -4,6 +4,8 @@ CONSTANTS
   Contents = {"shallow","badscan","badvalue","usesT","typeT","orset","rich","typeU","blank","typeC"}
   Ops = {"Check","Example","GetAST","OpenAPI"}
   Registers = TRUE
+  Sharing = FALSE
+  Plan = ""
   MaxCalls = 6
 INVARIANTS TypeOK Emit
 PROPERTIES FrozenRegsStable
